@@ -26,6 +26,55 @@ pub fn dispatch(op: &str, kind: &str, a: &mut Args) -> Option<String> {
         }
     }
     Some(match op {
+        // ---- C09: history of a Mixture<Gaussian> (generic struct: no generated history runner).
+        // hist.MixtureGaussian - <weights> <mus> <sigmas> <n> steps…   steps: q <x> | lw | w <weights> |
+        //   cw <weights> <mus> <sigmas> (components then weights, sizes may change) | clone | eq
+        // every query prints "got fresh" (fresh = Mixture::new_unchecked of the current parameters), pairs joined by " | "
+        "hist.MixtureGaussian" => {
+            use rv::dist::{Gaussian, Mixture};
+            use rv::traits::*;
+            let mk = |mus: &Vec<f64>, sig: &Vec<f64>| -> Vec<Gaussian> { mus.iter().zip(sig.iter()).map(|(m, s)| Gaussian::new_unchecked(*m, *s)).collect() };
+            let mut w = a.list(|a| a.f());
+            let mut mus = a.list(|a| a.f());
+            let mut sig = a.list(|a| a.f());
+            let mut live: Mixture<Gaussian> = Mixture::new_unchecked(w.clone(), mk(&mus, &sig));
+            let n = a.n();
+            let mut out: Vec<String> = vec![];
+            for _ in 0..n {
+                let t = a.tag();
+                match t.as_str() {
+                    "q" => {
+                        let x = a.f();
+                        let fresh: Mixture<Gaussian> = Mixture::new_unchecked(w.clone(), mk(&mus, &sig));
+                        out.push(format!("{} {}", tok(&live.ln_f(&x)), tok(&fresh.ln_f(&x))));
+                    }
+                    "lw" => {
+                        let fresh: Mixture<Gaussian> = Mixture::new_unchecked(w.clone(), mk(&mus, &sig));
+                        out.push(format!("{} {}", tok(&live.ln_weights().to_vec()), tok(&fresh.ln_weights().to_vec())));
+                    }
+                    "w" => {
+                        w = a.list(|a| a.f());
+                        live.set_weights_unchecked(w.clone());
+                    }
+                    "cw" => {
+                        w = a.list(|a| a.f());
+                        mus = a.list(|a| a.f());
+                        sig = a.list(|a| a.f());
+                        live.set_components_unchecked(mk(&mus, &sig));
+                        live.set_weights_unchecked(w.clone());
+                    }
+                    "clone" => {
+                        live = live.clone();
+                    }
+                    "eq" => {
+                        let fresh: Mixture<Gaussian> = Mixture::new_unchecked(w.clone(), mk(&mus, &sig));
+                        out.push(format!("{} T", tok(&(live == fresh))));
+                    }
+                    _ => return Some("BAD:step".to_string()),
+                }
+            }
+            out.join(" | ")
+        }
         "logsumexp" => {
             let xs = a.list(|a| a.f());
             tok(&xs.iter().logsumexp())
